@@ -74,13 +74,20 @@ def build_sandbox(root, rng, placement, opts_on):
     os.makedirs(os.path.join(proj, "other_dir"))
     open(os.path.join(proj, "other_dir", "x.f90"), "w").write("! not a source dir\n")
     os.makedirs(os.path.join(root, "work"))
-    opts = {"project": "Confine", "src_dir": "./src", "preprocess": False, "parallel": 0, "quiet": False}
+    opts = {"project": "Confine", "src_dir": "./src", "preprocess": False, "parallel": 0, "quiet": bool(opts_on.get("quiet"))}
     if opts_on.get("page_dir"):
         pd = os.path.join(proj, "pages")
         os.makedirs(os.path.join(pd, "sub", "assets"))
         # (an entry that climbs out of the page directory has no place inside the output: it must not be mirrored outside it)
-        esc = "\n    ../../bystander\n    ../other_dir" if opts_on.get("escaping_copy_subdir") else ""
-        open(os.path.join(pd, "index.md"), "w").write(f"title: Top\ncopy_subdir: shared{esc}\n\ntext [sub](sub/index.html)\n")
+        esc = f"\n    ../../bystander\n    ../other_dir\n    {os.path.join(proj, 'other_dir')}" if opts_on.get("escaping_copy_subdir") else ""
+        # (likewise a sub-page named by a path that leaves the page directory; the directory it would be mirrored to exists)
+        osp = ""
+        if opts_on.get("outside_subpage"):
+            os.makedirs(os.path.join(root, "shared_notes"), exist_ok=True)
+            os.makedirs(os.path.join(proj, "shared_notes"), exist_ok=True)
+            open(os.path.join(root, "shared_notes", "todo.md"), "w").write("title: Todo\n\na page file outside the page directory\n")
+            osp = f"\nordered_subpage: {os.path.join(root, 'shared_notes', 'todo.md')}\n    extra.md"
+        open(os.path.join(pd, "index.md"), "w").write(f"title: Top\ncopy_subdir: shared{esc}{osp}\n\ntext [sub](sub/index.html)\n")
         os.makedirs(os.path.join(pd, "shared"))
         open(os.path.join(pd, "shared", "s.css"), "w").write("body{}\n")
         open(os.path.join(pd, "notes.txt"), "w").write("notes\n")
@@ -162,6 +169,9 @@ def build_sandbox(root, rng, placement, opts_on):
         open(os.path.join(root, "archive_v1", "index.html"), "w").write("<html>v1</html>")
         open(os.path.join(root, "archive_v1", "sub", "page.html"), "w").write("<html>v1 sub</html>")
         os.symlink(os.path.join("..", "..", "archive_v1"), os.path.join(out, "v1"))
+        # files a publishing service keeps in the output directory
+        open(os.path.join(out, "CNAME"), "w").write("docs.example.org\n")
+        open(os.path.join(out, ".nojekyll"), "w").write("")
         opts["output_dir"] = "./doc"
         allowed.append(out)
     elif placement == "equals_src":
@@ -286,6 +296,8 @@ def case(arg):
         opts_on["force"] = rng.random() < 0.5
         opts_on["deep_media"] = rng.random() < 0.5
         opts_on["escaping_copy_subdir"] = rng.random() < 0.4
+        opts_on["outside_subpage"] = rng.random() < 0.3
+        opts_on["quiet"] = rng.random() < 0.4
         opts_on["bad_preprocessor"] = mode == "plain" and rng.random() < 0.3
         opts_on["graph_dir"] = [None, "sibling", "in_output", "absolute", "contains_sources"][seed % 5]
         if opts_on["graph_dir"] and rng.random() < 0.8:
